@@ -120,8 +120,27 @@ static void mustSwitch(int me) {
 
 // ------------------------------------------------------------------------------------------------ simulated mutex (seam)
 static void vcJoin(uint32_t* a, const uint32_t* b) { for (int i = 0; i < MAXT; i++) if (b[i] > a[i]) a[i] = b[i]; }
-static PlatformSpecificMutex simMutexCreate() { SimMutexObj* m = (SimMutexObj*)::calloc(1, sizeof(SimMutexObj)); m->owner = -1; return m; }
-static void simMutexDestroy(PlatformSpecificMutex m) { ::free(m); }
+// The platform layer's own mutex functions (src/Platforms/Gcc/UtestPlatform.cpp: PThreadMutexCreate/Lock/Unlock/Destroy) run for real; what is
+// simulated is the pthread primitive underneath them, through link-time wraps. A mutex initialised while a run is being set up is simulated.
+struct MutexReg { pthread_mutex_t* key; SimMutexObj* obj; };
+static MutexReg g_mutexes[64]; static int g_nMutexes = 0; static bool g_captureMutexes = false;
+static SimMutexObj* simObjFor(pthread_mutex_t* m) { for (int i = 0; i < g_nMutexes; i++) if (g_mutexes[i].key == m) return g_mutexes[i].obj; return 0; }
+static void simMutexLock(PlatformSpecificMutex pm); static void simMutexUnlock(PlatformSpecificMutex pm);
+extern "C" {
+int __real_pthread_mutex_init(pthread_mutex_t*, const pthread_mutexattr_t*); int __real_pthread_mutex_lock(pthread_mutex_t*); int __real_pthread_mutex_trylock(pthread_mutex_t*);
+int __real_pthread_mutex_unlock(pthread_mutex_t*); int __real_pthread_mutex_destroy(pthread_mutex_t*);
+int __wrap_pthread_mutex_init(pthread_mutex_t* m, const pthread_mutexattr_t* a) {
+    if (g_captureMutexes && g_nMutexes < 64 && !simObjFor(m)) { SimMutexObj* o = (SimMutexObj*)::calloc(1, sizeof(SimMutexObj)); o->owner = -1; g_mutexes[g_nMutexes].key = m; g_mutexes[g_nMutexes].obj = o; g_nMutexes++; }
+    return __real_pthread_mutex_init(m, a);
+}
+int __wrap_pthread_mutex_destroy(pthread_mutex_t* m) {
+    for (int i = 0; i < g_nMutexes; i++) if (g_mutexes[i].key == m) { ::free(g_mutexes[i].obj); g_mutexes[i] = g_mutexes[--g_nMutexes]; break; }
+    return __real_pthread_mutex_destroy(m);
+}
+int __wrap_pthread_mutex_lock(pthread_mutex_t* m) { SimMutexObj* o = simObjFor(m); if (!o) return __real_pthread_mutex_lock(m); simMutexLock(o); return 0; }
+int __wrap_pthread_mutex_unlock(pthread_mutex_t* m) { SimMutexObj* o = simObjFor(m); if (!o) return __real_pthread_mutex_unlock(m); simMutexUnlock(o); return 0; }
+int __wrap_pthread_mutex_trylock(pthread_mutex_t* m);
+}
 static void simMutexLock(PlatformSpecificMutex pm) {
     SimMutexObj* m = (SimMutexObj*)pm; int me = tlsId;
     if (!S.active || me < 0) return;
@@ -152,6 +171,17 @@ static void simMutexUnlock(PlatformSpecificMutex pm) {
     m->owner = -1;
     for (int i = 0; i < S.n; i++) if (S.t[i].blocked && S.t[i].waitingFor == m) S.t[i].blocked = false;   // waiters become runnable and re-check
     schedPoint(true);
+}
+
+extern "C" int __wrap_pthread_mutex_trylock(pthread_mutex_t* pm) {
+    SimMutexObj* m = simObjFor(pm); if (!m) return __real_pthread_mutex_trylock(pm);
+    int me = tlsId;
+    if (!S.active || me < 0) return 0;
+    schedPoint(true);
+    if (m->owner != -1) { probe("trylock_busy"); schedPoint(true); return EBUSY; }
+    m->owner = me; m->acquisitions++; vcJoin(S.t[me].vc, m->vc);
+    schedPoint(true);
+    return 0;
 }
 
 // ------------------------------------------------------------------------------------------------ happens-before race detector
@@ -351,7 +381,7 @@ struct Engine : public vf::Engine {
         shadowTab = (Shadow*)::calloc(SHADOW_SIZE, sizeof(Shadow));
         arenaInit();
         realMalloc = PlatformSpecificMalloc; realRealloc = PlatformSpecificRealloc; realFree = PlatformSpecificFree; realMemset = PlatformSpecificMemset;
-        PlatformSpecificMutexCreate = simMutexCreate; PlatformSpecificMutexDestroy = simMutexDestroy; PlatformSpecificMutexLock = simMutexLock; PlatformSpecificMutexUnlock = simMutexUnlock;
+        g_captureMutexes = true;      // from here on every pthread mutex the library initialises (the detector's) is a simulated one
         PlatformSpecificMalloc = heapMalloc; PlatformSpecificRealloc = heapRealloc; PlatformSpecificFree = heapFree; PlatformSpecificMemset = heapMemset;
         // function-local statics of the framework are initialised once, before any simulated thread exists
         defaultNewAllocator(); defaultNewArrayAllocator(); defaultMallocAllocator(); getCurrentNewAllocator(); getCurrentNewArrayAllocator(); getCurrentMallocAllocator(); NullUnknownAllocator::defaultAllocator();
